@@ -29,9 +29,6 @@ class Ref:
             w, s, st = S.window_of(d)
             ready = max(self.start[a] for a in d["args"])
             default = ready + w - 1
-            if d["kind"] == "transition" and ready > 0:
-                # documented as Window(width=2) (default start = ready+1); the library pins start=1
-                self.amb("transition-of-complex")
             self.start[d["name"]] = default if st is None else st
             self.win[d["name"]] = (w, s)
             if any(a in self.derived and self.win[a][1] > 1 for a in d["args"]):
